@@ -26,8 +26,13 @@ def factories():
                                          ResidualFSQ, ResidualLFQ, LatentQuantize, GroupedResidualFSQ, GroupedResidualLFQ)
     F = []
 
-    def add(name, mk, dim, mask=False, image=False, fwd_kw=None, mkx=None):
-        F.append(dict(name=name, mk=mk, dim=dim, mask=mask, image=image, fwd_kw=fwd_kw or {}, mkx=mkx))
+    def add(name, mk, dim, mask=False, image=False, fwd_kw=None, mkx=None, manual=None):
+        F.append(dict(name=name, mk=mk, dim=dim, mask=mask, image=image, fwd_kw=fwd_kw or {}, mkx=mkx, manual=manual))
+    # MANUAL EMA mode (round 10, seed C15-j): forward only accumulates the statistics, the caller applies them with `_codebook.update_ema()`.  The
+    # checkpoint is taken with an update still PENDING; applying it on the restored copy and on the original must give the same codebook
+    add('vq-manual-ema', lambda: VectorQuantize(dim=3, codebook_size=5, decay=0.5, manual_ema_update=True), 3, mask=True, manual=lambda m: m._codebook.update_ema())
+    add('vq-manual-ema-cosine-expiry', lambda: VectorQuantize(dim=3, codebook_size=5, decay=0.5, use_cosine_sim=True, threshold_ema_dead_code=2, manual_ema_update=True), 3, manual=lambda m: m._codebook.update_ema())
+    add('vq-manual-ema-heads', lambda: VectorQuantize(dim=4, codebook_size=5, heads=2, codebook_dim=2, separate_codebook_per_head=True, decay=0.25, manual_ema_update=True), 4, manual=lambda m: m._codebook.update_ema())
     add('vq-ema', lambda: VectorQuantize(dim=4, codebook_size=6, decay=0.5), 4, mask=True)
     add('vq-cosine-expiry', lambda: VectorQuantize(dim=4, codebook_size=6, use_cosine_sim=True, decay=0.5, threshold_ema_dead_code=2), 4, mask=True)
     add('vq-heads-sep-expiry', lambda: VectorQuantize(dim=4, codebook_size=5, heads=2, codebook_dim=2, separate_codebook_per_head=True, threshold_ema_dead_code=1, decay=0.25), 4)
@@ -76,7 +81,7 @@ def factories():
     return F
 
 
-def step(f, mod, x, train, seed, mask=None, outer_opt=None):
+def step(f, mod, x, train, seed, mask=None, outer_opt=None, apply_manual=True):
     import torch
     mod.train(train)
     torch.manual_seed(seed)
@@ -85,6 +90,8 @@ def step(f, mod, x, train, seed, mask=None, outer_opt=None):
     if mask is not None:
         kw['mask'] = mask
     ret = mod(x, **kw)
+    if train and f.get('manual') and apply_manual:
+        f['manual'](mod)
     if outer_opt is not None and train:
         outs = [t for t in (ret if isinstance(ret, tuple) else (ret,)) if isinstance(t, torch.Tensor) and t.dtype.is_floating_point and t.requires_grad]
         if outs:
@@ -131,7 +138,7 @@ def correspond(ctx, scale):
             opt_a = SGD(a.parameters(), lr=0.05) if use_outer else None
             try:
                 for t in range(n_pre):
-                    step(f, a, make_x(), True, rng.randrange(10 ** 6), make_mask(), opt_a)
+                    step(f, a, make_x(), True, rng.randrange(10 ** 6), make_mask(), opt_a, apply_manual=(t != n_pre - 1))
                     if t == n_pre - 1 and n_pre >= 1 and not f['image'] and not f.get('mkx'):
                         # the LAST call before the checkpoint asks for the cross-entropy loss to target indices (indices=) in training mode, where the class
                         # offers it: whatever such a call leaves pending (gradients of an in-place optimiser ...) must not be needed after a restore
@@ -197,6 +204,18 @@ def correspond(ctx, scale):
             for vname, v in variants:
                 dist[vname] = dist.get(vname, 0) + 1
             ref_mod = a
+            if f.get('manual'):
+                # the update that was pending at the checkpoint is applied now, on the original and on every restored copy
+                f['manual'](a)
+                sa0 = {k: t.clone() for k, t in a.state_dict().items()}
+                dist['pending_manual_updates_applied'] = dist.get('pending_manual_updates_applied', 0) + 1
+                for vname, v in list(variants):
+                    f['manual'](v)
+                    ok, why = impl.blobs_equal(sa0, {k: t.clone() for k, t in v.state_dict().items()})
+                    if not ok:
+                        failures.append({'key': f'{f["name"]}:{vname}:pending-manual-update-differs', 'what': f'{f["name"]}: checkpoint taken after {n_pre} accumulating forwards with the manual EMA update pending, {vname}: '
+                                         f'applying the update gives a different state than on the original: {why}', 'case': dict(name=f['name'], variant=vname, n_pre=n_pre)})
+                        variants.remove((vname, v))
             for si, (x, train, seed, m) in enumerate(post):
                 try:
                     ra = flat_out(step(f, ref_mod, x, train, seed, m, opt_a))
